@@ -67,7 +67,10 @@ def run(prop, tier, seed):
             fams[tr["family"]] = fams.get(tr["family"], 0) + 1
     states = sum(r.get("distinct", 0) for r in la.values())
     trans = sum(r.get("generated", 0) for r in la.values())
+    skipped = [n for n, r in la.items() if r.get("skipped")]
     for name, r in la.items():
+        if r.get("skipped"):
+            continue
         if not r.get("completed") or r.get("errors"):
             mach.append("leg A %s did not complete: %s" % (name, r.get("errors", [])[:1]))
         for kind, invn in r.get("violations", []):
@@ -88,6 +91,7 @@ def run(prop, tier, seed):
                 "counters, items per edge) must be one of the outcomes TLC found over all same-instant interleavings",
         "configurations": conf["checked"], "outcome_in_model_set": conf["matched"], "drift": conf["ndrift"],
         "drift_samples": conf["drift"][:3], "model_outcome_sets": conf["model_outcome_sets"]}
+    coverage["legA_skipped_exploration_budget"] = skipped
     if states:
         coverage.update(states=states, transitions=trans,
                         legA_configs=[{"config": n, "distinct": r["distinct"], "generated": r["generated"]} for n, r in la.items()])
